@@ -2,6 +2,7 @@ package checks
 
 import (
 	"bytes"
+	"encoding/binary"
 	"fmt"
 	"math"
 	"time"
@@ -211,7 +212,7 @@ func mutateBytes(r *vlib.R, in []byte) []byte {
 
 func runC12(tier string, _ []string) int {
 	c := vlib.NewCtx("C12", tier, "exploration")
-	c.SetRule("round trips: PRNG points/nodes (hostile strings, float bit patterns incl. NaN payloads, wire-range times, data nil/empty/random) through ToPb/PbDecodePoints, ToPb/PbDecodeNode, Nodes.ToPb/PbDecodeNodes, hand-wrapped NodeRequest/NodesRequest, the four bus message decoders (origin equal to the node / parent id in the subject included), and serial points through SerialEncode / SerialDecode / PbDecodeSerialPoints with times at and around 0, 2^31, 2^32, 2^33 ns and anywhere in the first eight seconds after the epoch; 2-6 encodings (half of them above 4 KiB) made in a row from 12 goroutines and decoded only afterwards; distinct = (codec, count of points, field classes present). decoders: random bytes and mutations (truncate, flip, set, insert, delete, splice, huge varint) of valid encodings (incl. bare 17-20 byte serial frames of every documented subject) into all 9 decoders + 4 subject parsers, a known good message decoded again afterwards (must still be itself); distinct = (decoder, outcome class, input length bucket)")
+	c.SetRule("round trips: PRNG points/nodes (hostile strings, float bit patterns incl. NaN payloads, wire-range times, data nil/empty/random) through ToPb/PbDecodePoints, ToPb/PbDecodeNode, Nodes.ToPb/PbDecodeNodes, hand-wrapped NodeRequest/NodesRequest, the four bus message decoders (origin equal to the node / parent id in the subject included), high-rate payloads built from their documented layout (periods up to 2^32-1 ns, up to 600 samples: sample i must carry start + i x period), and serial points through SerialEncode / SerialDecode / PbDecodeSerialPoints with times at and around 0, 2^31, 2^32, 2^33 ns and anywhere in the first eight seconds after the epoch; 2-6 encodings (half of them above 4 KiB) made in a row from 12 goroutines and decoded only afterwards; distinct = (codec, count of points, field classes present). decoders: random bytes and mutations (truncate, flip, set, insert, delete, splice, huge varint) of valid encodings (incl. bare 17-20 byte serial frames of every documented subject) into all 9 decoders + 4 subject parsers, a known good message decoded again afterwards (must still be itself); distinct = (decoder, outcome class, input length bucket)")
 	c.Assume("times limited to 0001..9999 (wire range); tombstone within int32 (wire type)")
 	nRT := c.N(30000, 1500000)
 	nDec := c.N(100000, 5000000)
@@ -434,6 +435,68 @@ func runC12(tier string, _ []string) int {
 				}
 			}
 			c.Count("serial_point_round_trips", 1)
+		}()
+	}
+
+	// ---- high-rate payloads (docs / code comment: type[16] key[16] start uint64 ns, period uint32 ns, float32
+	// samples): sample i carries the time start + i*period, to the nanosecond, however long the block lasts
+	nHr := c.N(3000, 60000)
+	for i := 0; i < nHr && !vlib.Aborted(); i++ {
+		r := vlib.NewR(c.Seed, "c12hr", i)
+		typ, key := r.Ident(1+r.Intn(16)), ""
+		if r.Chance(0.6) {
+			key = r.Ident(1 + r.Intn(16))
+		}
+		start := int64(1600000000e9) + r.Int63n(4e17)
+		if r.Chance(0.1) {
+			start = []int64{1, 1 << 32, 1<<32 - 1, 1 << 62}[r.Intn(4)]
+		}
+		period := []uint32{0, 1, 1000, 1e6, 10e6, 50e6, 1e9, 2e9, 1<<32 - 1, uint32(r.Uint32())}[r.Intn(10)]
+		n := 1 + r.Intn(8)
+		if r.Chance(0.3) {
+			n = 100 + r.Intn(500)
+		}
+		pay := make([]byte, 44+4*n)
+		copy(pay[0:16], typ)
+		copy(pay[16:32], key)
+		binary.LittleEndian.PutUint64(pay[32:40], uint64(start))
+		binary.LittleEndian.PutUint32(pay[40:44], period)
+		vals := make([]float32, n)
+		for j := range vals {
+			vals[j] = math.Float32frombits(r.Uint32())
+			binary.LittleEndian.PutUint32(pay[44+4*j:], math.Float32bits(vals[j]))
+		}
+		c.Eval(1)
+		func() {
+			wit := map[string]any{"type": typ, "key": key, "start_ns": start, "period_ns": period, "samples": n}
+			defer func() {
+				if e := recover(); e != nil {
+					c.Violate("decoder-panic:DecodeSerialHrPayload", fmt.Sprint("DecodeSerialHrPayload panicked on a well-formed payload: ", e), wit)
+				}
+			}()
+			var got data.Points
+			if err := data.DecodeSerialHrPayload(pay, func(p data.Point) { got = append(got, p) }); err != nil || len(got) != n {
+				c.Violate("wire:points-decode-error", fmt.Sprintf("DecodeSerialHrPayload of a well-formed payload: %v, %d points for %d samples", err, len(got), n), wit)
+				return
+			}
+			for j, p := range got {
+				want := start + int64(j)*int64(period)
+				bad := ""
+				switch {
+				case p.Time.UnixNano() != want:
+					bad = fmt.Sprintf("time %d ns, the format says %d ns (start + %d x period)", p.Time.UnixNano(), want, j)
+				case p.Type != typ || p.Key != key:
+					bad = fmt.Sprintf("type/key %q/%q for %q/%q", p.Type, p.Key, typ, key)
+				case math.Float32bits(float32(p.Value)) != math.Float32bits(vals[j]) && !(vals[j] != vals[j] && p.Value != p.Value):
+					bad = fmt.Sprintf("value %v for %v", p.Value, vals[j])
+				}
+				if bad != "" {
+					wit["sample"] = j
+					c.Violate("wire:point-field-changed", fmt.Sprintf("high-rate payload, sample %d of %d: %s", j, n, bad), wit)
+					return
+				}
+			}
+			c.Count("high_rate_payloads_checked", 1)
 		}()
 	}
 
